@@ -219,9 +219,11 @@ def check(ctx, facts, cfg):
                             if len(ds) == 1:
                                 tt = body.term(ds[0][1])
                                 src = body.canon_op(tt['args'][0]) if tt['args'] else None
-                                if re.search(r'Option::<T>::unwrap_or_default$', tt['callee'].get('path') or '') and src == ('param', 'work'):
+                                # unwrap_or_default / unwrap_or_else(f): the Some payload is what comes out, the alternative is only
+                                # built when there is none (unwrap_or(x) builds x in any case: not accepted)
+                                if re.search(r'Option::<T>::(unwrap_or_default|unwrap_or_else)(::<.*>)?$', tt['callee'].get('path') or '') and src == ('param', 'work'):
                                     okc = True
-                        if w is not None and w[0] == 'call' and re.search(r'unwrap_or_default$', w[1]) and w[2][0] == ('param', 'work'):
+                        if w is not None and w[0] == 'call' and re.search(r'(unwrap_or_default|unwrap_or_else)(::<.*>)?$', w[1]) and w[2][0] == ('param', 'work'):
                             okc = True
                         if e != ('param', 'engine'):
                             okc = False
